@@ -838,7 +838,7 @@ func aimedCases() []*Case {
 			p.Files = append(p.Files, &GFile{Path: f.path, Raw: f.lines})
 			b.Files = append(b.Files, &GFile{Path: f.path})
 		}
-		return &Case{Base: "regression", Rule: "aimed_" + name, Variant: name, Pos: "main", Prog: p, BaseProg: b, Recursive: recursive, BackendBad: backendBad}
+		return &Case{Base: "regression", Rule: "aimed_" + strings.SplitN(name, "/", 2)[0], Variant: name, Pos: "main", Prog: p, BaseProg: b, Recursive: recursive, BackendBad: backendBad}
 	}
 	ab := fl{"a.b.thrift", []string{"const i32 c = 1"}}
 	a := fl{"a.thrift", []string{"enum b { c }"}}
